@@ -147,7 +147,9 @@ theorem tetAddCell_valence (hfs : List Nat) (chk : Bool) (h : ValenceShape k) :
   · exact h
   · split
     · exact h
-    · rename_i hl _; simp at hl; exact addCell_valence k hfs chk h hl
+    · split
+      · exact h
+      · rename_i hl _ _; simp at hl; exact addCell_valence k hfs chk h hl
 
 /-- refused calls of the three overrides return the state they were given -/
 theorem tetAddFace_refused (hes : List Nat) (chk : Bool) (h : (k.tetAddFace hes chk).2 = none) :
@@ -162,8 +164,10 @@ theorem tetAddCell_refused (hfs : List Nat) (chk : Bool) (h : (k.tetAddCell hfs 
   · rfl
   · split
     · rfl
-    · rename_i h1 h2; simp only [h1, h2, if_false] at h ⊢
-      unfold addCell at *; split <;> simp_all
+    · split
+      · rfl
+      · rename_i h1 h2 h3; simp only [h1, h2, h3, if_false] at h ⊢
+        unfold addCell at *; split <;> simp_all
 theorem tetAddFace_wrong_valence (hes : List Nat) (chk : Bool) (h : hes.length ≠ 3) : k.tetAddFace hes chk = (k, none) := by
   unfold tetAddFace; simp [h]
 theorem tetAddFaceV_wrong_valence (vs : List Nat) (h : vs.length ≠ 3) : k.tetAddFaceV vs = (k, none) := by
@@ -354,7 +358,9 @@ theorem tetAddCell_keeps (hfs : List Nat) (chk : Bool) : Keeps k (k.tetAddCell h
   · exact Keeps.refl k
   · split
     · exact Keeps.refl k
-    · rename_i hl _; simp at hl; exact addCell_keeps k hfs chk hl
+    · split
+      · exact Keeps.refl k
+      · rename_i hl _ _; simp at hl; exact addCell_keeps k hfs chk hl
 
 /-- the edge-collecting fold of `add_face(vertices)`, now also for the modes -/
 theorem foldl_pair_modes {β} (step : Kernel × List Nat → β → Kernel × List Nat)
